@@ -22,6 +22,11 @@ impl TreeSitterMasker {
         let mut parser = tree_sitter::Parser::new();
         parser.set_language(self.language).unwrap();
 
+        // Some grammars never finish recovering from certain malformed inputs (Dart on
+        // `{harper:ignore.a` keeps the parser busy forever). Give up after a generous while:
+        // no tree means no comments to check, which beats a checker that never answers.
+        parser.set_timeout_micros(1_000_000);
+
         // TODO: Use incremental parsing
         parser.parse(text, None)
     }
